@@ -57,8 +57,15 @@ TRUSTED = ["models: Model/Premade.v, Model/PremadeKFL.v (hand-written from prema
            "variable.constraint; legacy optimizers assign-then-constrain per variable in the order of grads_and_vars "
            "(layer order scale, bias, kernel under model.fit); constructors do not apply constraints; set_weights "
            "copies values verbatim; a non-trainable KFL bias is never touched",
-           "initial values satisfy their invariants (C10) is a hypothesis of C03_reachable_feasible_*; it is observed "
-           "here on every freshly built model (assert_constraints + predicates; check_wiring for KFL)",
+           "initial values: C03_reachable_feasible_*_from_init (Props/C03.v section G) have no initial-value hypothesis "
+           "left - the values the premade builders start from (Proofs/PremadeInit.v, on the C10 initialiser models) "
+           "satisfy the invariants whenever the configuration is valid AND output_initialization lies sorted inside "
+           "[output_min, output_max] (verify_config does not check that: C03_init_refuted_output_initialization_"
+           "unchecked; the generator only draws such values). That the builders hand exactly those arguments to the "
+           "initialisers is tied on every run by Harness/H_C03Init.v (fresh CalibratedLattice / CalibratedLinear "
+           "models, every constrained variable, arguments taken from the config); RTL / aggregation lattices, "
+           "categorical and KFL variables start from random draws (theorems quantify over every draw) and are "
+           "observed on every freshly built model (assert_constraints + predicates; check_wiring for KFL)",
            "the wiring checks run at the float32 tolerance 1e-5 (and accept the all-zero combiner of known finding "
            "D32, which the predicate on the implementation reports); soundness is proved for ensembles at tolerance 0 "
            "(C03_wiring_check_sound, term_ok_sound / kfl_layer_ok_feasible for KFL members). check_wiring1 / kfl_ok "
@@ -950,9 +957,30 @@ def _probe_d57(ctx):
   return None
 
 
-KNOWN_PROBES = {"kfl_scale_changed_after_kernel_constraint": _probe_d57}
+def _probe_d65(ctx):
+  """Fixed witness of known finding D65: verify_config accepts an output_initialization outside
+  [output_min, output_max]; the freshly built model is out of bounds."""
+  tf, tfl = tfimpl.tfl()
+  fcs = [tfl.configs.FeatureConfig(name=n, lattice_size=2, monotonicity="increasing",
+                                   pwl_calibration_input_keypoints=[0., 1., 2.]) for n in "ab"]
+  cfg = tfl.configs.CalibratedLatticeConfig(feature_configs=fcs, output_min=0., output_max=1.,
+                                            output_initialization=[-5., 5.])
+  tfl.premade_lib.verify_config(cfg)
+  m = tfl.premade.CalibratedLattice(cfg)
+  y = m.predict([np.array([[0.], [2.]])] * 2, verbose=0).ravel()
+  if y.min() < -1e-6 or y.max() > 1 + 1e-6:
+    return "CalibratedLattice(output_min=0, output_max=1, output_initialization=[-5,5]) right after construction: f(0,0)=%.3f, f(2,2)=%.3f" % (
+        y[0], y[1])
+  return None
+
+
+KNOWN_PROBES = {"kfl_scale_changed_after_kernel_constraint": _probe_d57,
+                "output_initialization_outside_bounds": _probe_d65}
 
 
 def extra(ctx, stats):
   stats.update(_STATS)
-  return []
+  # initial values of fresh premade models against the values of Props/C03.v section G (Harness/H_C03Init.v)
+  import sys
+  from props import c03_init
+  return c03_init.init_tie(ctx, stats, sys.modules[__name__])
